@@ -179,6 +179,11 @@ func init() {
 			ruleCounting(c, r, "", "write")
 			ruleBlockWriterHash(c, r, "")
 			ruleLookahead(c, r, "")
+			ruleCtorReopen(c, r, "")
+			ruleEncoderDictArgs(c, r, "")
+			ruleDictCapEncode(c, r, "")
+			ruleLzmaFilterCodec(c, r, "")
+			ruleFilterWriterDict(c, r, "")
 			ruleXZWriter(c, r, "")
 			t := getChunkTables(c, r, "")
 			ruleWriter2(c, r, t, "")
@@ -201,6 +206,8 @@ func init() {
 			ruleBudgetFresh(c, r, "")
 			ruleHashTableAlloc(c, r, "")
 			ruleRingModulus(c, r, "", "enc")
+			rulePeekLen(c, r, "")
+			ruleDiscardFeed(c, r, "")
 		},
 	})
 }
